@@ -13,7 +13,7 @@ RULE = (
     'Function level (a): find_offsets on generated head mappings whose '
     'overlap graph is connected by construction (2-10 series, contiguous or '
     'ragged level ranges, crossing values = smooth curve + per-series shift '
-    '+ noise, lattice or floats up to 1e6). (b): get_series_time_offsets on '
+    '+ noise, lattice or floats up to 1e6; part find_offsets_big: 12-130 series x 127-1400 levels, 16,000-65,000 equations in one fit, table derived from a few drawn numbers). (b): get_series_time_offsets on '
     'generated series collections (falling, bumpy, rising; connected by '
     'construction) with the crossing table recomputed by the exact model. '
     'Table level (part tables): planted datasets with noisy pieces through '
@@ -160,6 +160,47 @@ def mapping_cases(draw):
     return {'table': table, 'perturbations': perts, 'relabel': list(relabel)}
 
 
+BIG_SHAPES = [(32, 512), (32, 513), (29, 565), (40, 500), (25, 1400),
+              (64, 1024), (12, 1366), (130, 127)]
+
+
+@st.composite
+def big_mapping_cases(draw):
+    """Long records on fine grids: tens of thousands of (level, series)
+    equations in one fit (the sample data reach 3526).  The table is a
+    function of a few drawn numbers so the case stays small."""
+    n, nlev = draw(st.sampled_from(BIG_SHAPES))
+    return {
+        'big': {'n': n, 'nlev': nlev,
+                'slope': draw(st.sampled_from([-3600.0, -600.0, -1.0, 2.5])),
+                'shifts': [draw(st.integers(-4000, 4000)) / 8.0
+                           for _ in range(n)],
+                'trim': draw(st.sampled_from([0, 0, 3, 4])),
+                'salt': draw(st.integers(0, 1000))},
+        'perturbations': [draw(st.lists(st.floats(-1.0, 1.0), min_size=n,
+                                        max_size=n)) for _ in range(2)],
+        'relabel': list(draw(st.permutations(range(n)))),
+    }
+
+
+def expand_big(big):
+    n, nlev = big['n'], big['nlev']
+    table = {}
+    for sid in range(n):
+        lo = hi = None
+        if big['trim']:
+            lo = (sid * 37 + big['salt']) % (nlev // big['trim'])
+            hi = nlev - 1 - (sid * 53 + big['salt']) % (nlev // big['trim'])
+        for level in range(nlev):
+            if lo is not None and not lo <= level <= hi:
+                continue
+            noise = ((level * 7919 + sid * 104729 + big['salt']) % 65
+                     - 32) / 8.0
+            table.setdefault(level, {})[sid] = (
+                big['slope'] * level + big['shifts'][sid] + noise)
+    return table
+
+
 def table_of(case_table):
     return {int(k): {int(s): float(c) for s, c in row.items()}
             for k, row in case_table.items()}
@@ -173,7 +214,8 @@ def connected(table):
 
 
 def check_mapping(case):
-    table = table_of(case['table'])
+    table = (expand_big(case['big']) if 'big' in case
+             else table_of(case['table']))
     ok, fitted = connected(table)
     if not ok:
         raise Reject('generated overlap graph not connected')
@@ -215,6 +257,11 @@ def check_mapping(case):
     if not complete:
         labels.add('incomplete-overlap')
     if n >= 3 and singles and not complete:
+        labels.add('nontrivial')
+    if 'big' in case:
+        equations = sum(len(row) for row in table.values() if len(row) > 1)
+        labels.add('equations>16384' if equations > 16384
+                   else 'equations<=16384')
         labels.add('nontrivial')
     return labels
 
@@ -299,6 +346,10 @@ PARTS = [
          strategy=lambda tier: mapping_cases(),
          budget={'quick': 150, 'thorough': 2500},
          describe='find_offsets on generated head mappings'),
+    Part('find_offsets_big', check_mapping,
+         strategy=lambda tier: big_mapping_cases(),
+         budget={'quick': 2, 'thorough': 12},
+         describe='find_offsets on 16,000-65,000 equations in one fit'),
     Part('series', check_series, strategy=lambda tier: series_cases(),
          budget={'quick': 100, 'thorough': 1500},
          describe='get_series_time_offsets on generated series'),
